@@ -225,7 +225,7 @@ def steps_of(c):
     """(move, outcome) pairs as Coq terms; a crashed case gets OCrash on the move during which the process died"""
     out = []
     for s in c.get("steps", []):
-        m = KMAP[s["k"]] + (" " + _z(s["x"]) if s["k"] == "send" else "")
+        m = KMAP[s["k"]] + (" " + _z(s.get("x", 0)) if s["k"] == "send" else "")
         o = {"done": "ODone", "blocked": "OBlocked", "closed": "OClosed", "crash": "OCrash"}.get(s["o"])
         if s["o"] == "val":
             o = "OVal " + _z(s.get("v", 0))
@@ -234,7 +234,7 @@ def steps_of(c):
         out.append("(%s, %s)" % (m, o))
     if c.get("crashed"):
         nxt = crashed_move(c)
-        m = KMAP[nxt["k"]] + (" " + _z(nxt["x"]) if nxt["k"] == "send" else "")
+        m = KMAP[nxt["k"]] + (" " + _z(nxt.get("x", 0)) if nxt["k"] == "send" else "")
         out.append("(%s, OCrash)" % m)
     return out
 
@@ -299,7 +299,7 @@ def describe(c):
                 "required": "answers of a FIFO list: deq/head return the oldest value, emit is nil iff empty"}
     tr = []
     for s in c.get("steps", []):
-        t = s["k"] + (" %d" % s["x"] if s["k"] == "send" else "") + " -> " + s["o"] + (" %d" % s["v"] if s["o"] == "val" else "")
+        t = s["k"] + (" %d" % s.get("x", 0) if s["k"] == "send" else "") + " -> " + s["o"] + (" %d" % s.get("v", 0) if s["o"] == "val" else "")
         if s.get("nw"):
             t += "   [no Wait before the next move]"
         tr.append(t)
